@@ -807,6 +807,41 @@ def mkChain (ss : List (View ν α)) (along : ν) : Option (View ν α) :=
         if rest.any (fun s => !(decide (s.length = first.length) && similarGo a 0 s first)) then none
         else some (.chain ss a)
 
+/-! ### Mutators of an existing view
+
+  The only public methods that change an adaptor after its construction are
+  `TensorRename::set_names` (a validating setter) and the `source_ref_mut` accessors of
+  `TensorRename`, `TensorReverse` (and of `TensorView` / `TensorMap`, which are not adaptors of
+  this model), which hand out `&mut S`: through it the source can be modified or replaced by any
+  other value of the same type `S`, in particular by a view of another shape of the same
+  dimensionality (`std::mem::swap`).  Every other field of every adaptor is private and fixed. -/
+
+/-- `TensorRename::set_names` (views/renamed.rs:98): panics — *before* assigning — when the new
+    names are not unique; the first component is the view that exists afterwards. -/
+def setNames : View ν α → List ν → View ν α × Outcome Unit
+  | .rename s old, dimensions =>
+    if hasDuplicates dimensions then (.rename s old, .panic .explicit)
+    else (.rename s dimensions, .ok ())
+  | v, _ => (v, .ok ())
+
+/-- `TensorRename::get_names` -/
+def getNames : View ν α → Option (List ν)
+  | .rename _ dimensions => some dimensions
+  | _ => none
+
+/-- the source behind `source_ref_mut` (`TensorRename`, `TensorReverse`) -/
+def sourceOf : View ν α → Option (View ν α)
+  | .rename s _ => some s
+  | .reverse s _ => some s
+  | _ => none
+
+/-- `*view.source_ref_mut() = source` (or `std::mem::swap` with it): the adaptor keeps its own
+    fields and looks at the new source from then on -/
+def replaceSource : View ν α → View ν α → View ν α
+  | .rename _ dimensions, s => .rename s dimensions
+  | .reverse _ reversed, s => .reverse s reversed
+  | v, _ => v
+
 /-- `TensorAccess::from_memory_order`: `None` unless the layout is linear; the `unwrap_or_else`
     panic is `.panic .explicit`. -/
 def fromMemoryOrder (s : View ν α) : Outcome (Option (View ν α)) :=
